@@ -521,3 +521,68 @@ pub fn c10log(s: &mut Sess, rng: &mut Rng, n: u64, thorough: bool) {
         }
     }
 }
+
+
+/// C11 at protocol level: up to three PROCESSES, each making several independent calls of `open`
+/// on one directory, cloning and dropping handles and statistics, and dying (SIGKILL). The model
+/// (`CasModel/Lock.lean`, proved in `Props/C11Proto.lean`) answers every line; on top, straight
+/// from the property: never two live handles, a refused open changes nothing, an open that fails
+/// after taking the lock gives it back, and when nobody owns the directory the next open succeeds.
+pub fn c11p(s: &mut Sess, rng: &mut Rng, n: u64) {
+    for _ in 0..n {
+        s.begin_case(&format!("cfg kind=bytes n={} sync=1 pre=0", *rng.pick(&[3u64, 10_000])));
+        s.op("lk reset");
+        // the owner as the harness sees it: name, process, clones of the handle, statistics alive
+        let mut live: Option<(String, usize, usize, bool)> = None;
+        let mut next_slot = 0u32;
+        let mut created = false;
+        let steps = rng.range(8, 20);
+        for _ in 0..steps {
+            let roll = rng.below(10);
+            let can_clone = live.as_ref().is_some_and(|l| l.2 > 0);
+            if roll < 5 || live.is_none() || (roll < 7 && !can_clone) {
+                // a call of `open` from some process
+                let p = rng.below(3) as usize;
+                let mode = if !created { *rng.pick(&["good0", "good1"]) } else { *rng.pick(&["good0", "good1", "good1", "bad"]) };
+                let slot = format!("h{next_slot}"); next_slot += 1;
+                let r = s.op(&format!("lk open {slot} {p} {mode}"));
+                match (&live, r.as_str()) {
+                    (None, "granted") if mode != "bad" => { live = Some((slot, p, 1, mode == "good1")); created = true; s.out.count("c11p.granted"); }
+                    (None, "failed") if mode == "bad" => { s.out.count("c11p.failed-after-lock"); }
+                    (None, _) => s.out.oracle_fail(format!("C11: nobody owns the directory, yet `lk open {slot} {p} {mode}` answered `{r}`")),
+                    (Some(_), "refused") => { s.out.count("c11p.refused"); }
+                    (Some(l), _) => s.out.oracle_fail(format!("C11: `{}` owns the directory, yet `lk open {slot} {p} {mode}` answered `{r}`", l.0)),
+                }
+            } else if roll < 7 {
+                let (slot, p, cl, st) = live.clone().unwrap();
+                let r = s.op(&format!("lk clone {slot} {p}"));
+                if r != format!("refs={}", cl + 1 + st as usize) { s.out.oracle_fail(format!("C11: clone of `{slot}` answered `{r}`")); }
+                live = Some((slot, p, cl + 1, st));
+                s.out.count("c11p.clone");
+            } else if roll < 9 {
+                let (slot, p, mut cl, mut st) = live.clone().unwrap();
+                let kind = *rng.pick(&["c", "s"]);
+                let r = s.op(&format!("lk drop {slot} {p} {kind}"));
+                if (kind == "s" && st) || cl == 0 { st = false; } else { cl -= 1; }
+                let refs = cl + st as usize;
+                if r != format!("refs={refs}") { s.out.oracle_fail(format!("C11: drop on `{slot}` answered `{r}`, {refs} references should be left")); }
+                if cl == 0 && st { s.out.count("c11p.kept-by-stats"); }
+                live = if refs > 0 { Some((slot, p, cl, st)) } else { s.out.count("c11p.last-drop"); None };
+            } else {
+                let p = rng.below(3) as usize;
+                s.op(&format!("lk die {p}"));
+                if live.as_ref().is_some_and(|l| l.1 == p) { live = None; s.out.count("c11p.owner-died"); } else { s.out.count("c11p.bystander-died"); }
+            }
+            let l = s.op("lk live");
+            let want = live.as_ref().map(|x| x.0.clone()).unwrap_or_else(|| "-".into());
+            if l.contains(',') { s.out.oracle_fail(format!("C11: two live handles on one directory: {l}")); }
+            else if l != want { s.out.oracle_fail(format!("C11: live handles `{l}`, expected `{want}`")); }
+        }
+        s.op("lk reset");
+        // the directory is a working store afterwards
+        if !s.op("open").starts_with("ok") { s.out.oracle_fail("C11: open after every process is gone failed".into()); }
+        s.op("iter");
+        s.op("close");
+        s.op("tracedrop");
+    }
+}
